@@ -92,7 +92,7 @@ def run(ck):
     r9_blst_batches(ck, w)
     r10_canonical_delegates(ck, w)
     from . import c10
-    c10.eval_nesting(ck, w, 'C11', 'C11.N1')
+    c10.eval_ops(ck, w, 'C11', 'C11.N1')
     from ..engines import ziplint
     ck.rule('C11.R6', 'zip-truncated comparisons in the curves crate: equality over `zip(..).all(..)` also compares lengths or runs over fixed-size arrays (tables.ZIP_EQ_OK)')
     ziplint.check(ck, w, 'C11.R6', ['curves'], lambda file: True, tables.ZIP_EQ_OK, 1)
